@@ -24,7 +24,8 @@ from typing import Any, Dict, List, Optional, Tuple
 HOST_OPS = ["aten::add", "aten::mm", "aten::linear", "aten::conv2d", "aten::relu", "aten::copy_"]
 BWD_OPS = ["autograd::engine::evaluate_function: AddBackward0", "autograd::engine::evaluate_function: MmBackward0"]
 K_COMP = ["ampere_sgemm_128x64_nn", "void at::native::vectorized_elementwise_kernel<4, at::native::AddFunctor<float> >(int, float)",
-          "sm80_xmma_gemm_f32f32", "void cutlass::Kernel<cutlass_80_tensorop>(Params)"]
+          "sm80_xmma_gemm_f32f32", "void cutlass::Kernel<cutlass_80_tensorop>(Params)",
+          "void at::native::vectorized_elementwise_kernel<4, at::native::MulFunctor<float> >(int, float)"]
 K_COMM = ["ncclKernel_AllReduce_RING_LL_Sum_float(ncclWorkElem)", "ncclDevKernel_AllGather_RING_LL(ncclDevComm*)"]
 K_MEMCPY = ["Memcpy HtoD (Pageable -> Device)", "Memcpy DtoH (Device -> Pageable)", "Memcpy DtoD (Device -> Device)"]
 K_MEMSET = ["Memset (Device)"]
